@@ -140,12 +140,24 @@ func RunC15(tier string) int {
 					}
 					sort.Strings(dl)
 					if len(dl) > 0 {
-						d := dl[ra.Intn(len(dl))]
+						// one dependant, or all of them at once (they then ask for the lost
+						// outputs concurrently)
+						pick := dl[ra.Intn(len(dl)):]
 						_ = rb.Intn(len(dl))
+						if all := ra.Chance(1, 2); !all {
+							pick = pick[:1]
+						} else {
+							pick = dl
+							run.Count("faults_with_all_dependants_invalidated", 1)
+						}
+						_ = rb.Chance(1, 2)
 						w := ra.Word(4, 8)
 						_ = rb.Word(4, 8)
-						a.Apply(func() string { a.Spec.Target(d).Salt = w; return "command-change" })
-						b.Apply(func() string { b.Spec.Target(d).Salt = w; return "command-change" })
+						for _, d := range pick {
+							d := d
+							a.Apply(func() string { a.Spec.Target(d).Salt = w; return "command-change" })
+							b.Apply(func() string { b.Spec.Target(d).Salt = w; return "command-change" })
+						}
 					}
 					for l, st := range a.Memo {
 						_ = l
@@ -219,6 +231,30 @@ func RunC15(tier string) int {
 				rep("exit-status-differs"+f, fmt.Sprintf("mode all exited %d, mode minimal exited %d; minimal stderr tail: %s", oa.Res.Exit, ob.Res.Exit, tail(ob.Res.Stdout+ob.Res.Stderr, 500)))
 			} else if !fault && startedSet(oa) != startedSet(ob) {
 				rep("executed-set-differs "+setDiffKind(b.Spec, oa, ob), fmt.Sprintf("mode all executed [%s], mode minimal executed [%s]", startedSet(oa), startedSet(ob)))
+			}
+			// with or without faults: under minimal a dependency is loaded or re-run once, whoever
+			// asks for it - two executions of one target that overlap, or that both succeed in one
+			// build, mean that two dependants re-ran it independently
+			if !stop {
+				var twice []string
+				for l, n := range ob.Ended {
+					if n > 1 || ob.Overlap[l] > 0 {
+						twice = append(twice, l)
+					}
+				}
+				for l := range ob.Overlap {
+					if ob.Ended[l] <= 1 {
+						twice = append(twice, l)
+					}
+				}
+				sort.Strings(twice)
+				if len(twice) > 0 {
+					f := ""
+					if fault {
+						f = " under-cache-fault"
+					}
+					rep("dependency-executed-twice-in-one-build"+f, fmt.Sprintf("mode minimal ran %v more than once in one build (executions: %v, overlapping pairs: %v); mode all executed [%s]", twice, ob.Ended, ob.Overlap, startedSet(oa)))
+				}
 			}
 			if !stop {
 				for _, v := range vb {
